@@ -32,7 +32,7 @@ static const char *PAT[NPAT] = { "t", "u", "^t.*", ".", M_PS_CTX_STARTED, M_PS_C
 static int pat_match[NPAT][NTOPIC];       /* computed with the same regcomp flags the library uses */
 
 enum { PR_LOW, PR_NORM, PR_HIGH };
-typedef struct { int present, prio, oneshot, upver, dup, af; } sub_t;
+typedef struct { int present, prio, oneshot, upver, dup, af, gen; } sub_t;      /* gen: which subscription object (a replacement or a new subscription after an unsubscribe is a new one) */
 static char UPV[NM][NPAT][2];             /* user pointers given at subscription (identity only) */
 static char SRCUP[NM][16];
 static void *SRCUPH[NM][16];              /* heap user data of sources registered with M_SRC_AUTOFREE (NULL otherwise); owned by the library once the registration succeeded */
@@ -48,7 +48,7 @@ static char PAY[MAXMSG];                  /* plain payload cells (identity) */
 
 /* pending deliveries of a module (mailbox + accumulated batch), in send order */
 #define MAXMB 24
-typedef struct { int msg; int optional; unsigned pats; int kind; int key; int prio; int after_pill; } pend_t;   /* prio: priority of the matching subscription when sent (-1: several candidates) */   /* kind: 0 ps message, 1 fd readiness, 2 timer expiry */
+typedef struct { int msg; int optional; unsigned pats; int kind; int key; int prio; int after_pill; unsigned char gens[NPAT]; unsigned oneshots; } pend_t;      /* oneshots: patterns whose subscription was one-shot when the message was sent */   /* prio: priority of the matching subscription when sent (-1: several candidates) */   /* kind: 0 ps message, 1 fd readiness, 2 timer expiry */
 
 /* user-held / stashed event records */
 typedef struct { const m_evt_t *p; int kind, msg, key; const void *ud; int refs; int prio; } evrec_t;
@@ -91,7 +91,7 @@ static evrec_t EV[MAXEV]; static int nev;
 static int retained[MAXEV], nret;           /* indices into EV[] the "user" holds a reference on */
 
 /* context */
-static struct { int exists, persist, looping, quit, quit_code, finalized, tick; int ever; int pass_changed; } CX;
+static struct { int exists, persist, looping, quit, quit_code, finalized, tick; int ever; int pass_changed; int var; } CX;      /* var: ownership flags given at registration (0 none, 1 NAME_DUP, 2 auto-free name and user data) */
 static int api_depth;                       /* nesting depth of API calls issued by the harness (0 = outside) */
 static int cb_depth;
 static int in_cb_slot = -1, in_cb_kind = -1;
@@ -150,6 +150,7 @@ static void mb_append(int s, int msg, int optional, unsigned pats) {
     for (int i = 0; i < m->nmb; i++) if (m->mb[i].kind == 0 && !m->mb[i].optional && MSG[m->mb[i].msg].topic == T_PILL) after_pill = 1;
     if (after_pill) optional = 1;
     m->mb[m->nmb++] = (pend_t){ msg, optional, pats, 0, 0, np > 1 ? -1 : prio, after_pill };
+    for (int q = 0; q < NPAT; q++) { m->mb[m->nmb - 1].gens[q] = (unsigned char)m->sub[q].gen; if ((pats & (1u << q)) && m->sub[q].present && m->sub[q].oneshot) m->mb[m->nmb - 1].oneshots |= 1u << q; }      /* the subscription objects the message was sent under */
     if (!optional) MSG[msg].owed++;
 }
 static void mb_remove(int s, int idx) {
